@@ -5,7 +5,7 @@ import random
 import numpy as np
 
 from common import Driver, Report, ser_result, ser_diagram, wf_failure, lean_obligations, err_class
-from core import Family, Gen, tok_expr, spec_diagram
+from core import Family, Gen, tok_expr, spec_diagram, enumerate_diagrams, small_signature
 from semantics import IntFunctor, wire_labels
 from props.c05 import simulate
 
@@ -287,6 +287,76 @@ def run(tier, seed, replay=None):
                     rep.fail("not_canonical", dict(spiral=n, left=left),
                              "%d distinct normal forms in the class of spiral(%d)" % (len(nfs), n))
         rep.extra["spiral_members_normalised"] = spirals
+        # ---- exhaustive small scope: ALL diagrams over the 8-box signature up to 3 (quick) / 4
+        # (thorough) boxes: traces accepted by the model, normal forms compared, and the space
+        # partitioned into interchanger classes (closure under legal exchanges) to check
+        # canonicity and "NotImplementedError only for disconnected diagrams" on every class
+        a_, b_ = ("a", 0), ("b", 0)
+        depth = 3 if tier == "quick" else 4
+        small = enumerate_diagrams(small_signature(), [[], [a_], [a_, b_]], depth, 4)
+        key = lambda x: (tuple(map(repr, x.boxes)), tuple(x.offsets), repr(x.dom))
+        real = {}
+        for e in small:
+            d = fam.run(e)
+            real[key(d)] = (e, d)
+        parent = {k: k for k in real}
+
+        def find(k):
+            while parent[k] != k:
+                parent[k] = parent[parent[k]]
+                k = parent[k]
+            return k
+        nf_of = {}
+        for k, (e, d) in real.items():
+            for i in range(len(d.boxes) - 1):
+                sim = simulate(d, i, i + 1, False)
+                if sim[0] == "ok":
+                    k2 = (tuple(map(repr, sim[1])), tuple(sim[2]), repr(d.dom))
+                    if k2 in parent:
+                        parent[find(k)] = find(k2)
+            for left in (False, True):
+                case = dict(expr=repr(e), left=left, stream="small-scope")
+                try:
+                    steps = list(itertools.islice(monoidal.Diagram.normalize(d, left=left), CAP))
+                except Exception as exc:
+                    rep.fail("normalize_raises:" + err_class(exc), case, repr(exc)[:200])
+                    continue
+                if len(steps) < CAP and len(steps) <= 40:
+                    line = "rtrace %d %s %s" % (
+                        1 if left else 0, tok_expr(e),
+                        " ".join([str(len(steps))] + [tok_expr(spec_diagram(x)) for x in steps]))
+                    ans = drv.ask(line)
+                    if ans != "accepted terminal=1":
+                        rep.disagree("rtrace-small", case, "accepted terminal=1", ans)
+                    rep.case("small " + line[:200], len(steps) >= 1)
+                try:
+                    nf_of[(k, left)] = monoidal.Diagram.normal_form(d, left=left)
+                except NotImplementedError:
+                    nf_of[(k, left)] = None
+                except Exception as exc:
+                    rep.fail("normal_form_raises:" + err_class(exc), case, repr(exc)[:200])
+        classes = {}
+        for k in real:
+            classes.setdefault(find(k), []).append(k)
+        n_conn = 0
+        for root, members in classes.items():
+            conn = all(is_connected(real[k][1]) for k in members)
+            if not conn:
+                continue
+            n_conn += 1
+            for left in (False, True):
+                nfs = {repr(nf_of.get((k, left))) for k in members}
+                if "None" in nfs:
+                    rep.fail("connected_not_normalised", dict(expr=repr(real[members[0]][0]), left=left),
+                             "NotImplementedError in a connected class (small scope)")
+                elif len(nfs) > 1:
+                    rep.fail("not_canonical", dict(expr=repr(real[members[0]][0]), left=left),
+                             "%d normal forms in one class (small scope)" % len(nfs))
+        rep.extra["exhaustive_small_scope"] = dict(
+            diagrams=len(real), classes=len(classes), connected_classes=n_conn, exhaustive=True,
+            scope="all diagrams over the 8-box signature, domains (), a, a@b, width <= 4, "
+                  "depth <= %d; classes = closure under legal adjacent exchanges within the scope" % depth,
+            note="exhaustive for this finite space; support for the unproved clauses, not a theorem")
         rep.extra["interchanger_classes"] = dict(explored=explored, complete=exhaustive,
                                                  members=members,
                                                  note="support for the unproved clauses, not a theorem")
